@@ -918,6 +918,26 @@ func bwCalls(b *bufio.Writer) int                { return outCalls(wrOf(b)) }
 //@   trusted
 //@   assigns nothing
 
+// ufParamsBuf: the buffer the byte slices of a parameter set point into (C17). Assumed of the
+// dependency: Parameters.Copy(dst) returns parameters whose slices all lie in dst.
+func ufParamsBuf(p httphead.Parameters) []byte { return nil }
+
+//@ func httphead.Parameters.Size
+//@   ensures [nn] result >= 0 && result <= 1<<40
+//@   assigns nothing
+
+//@ func httphead.Parameters.Copy
+//@   ensures [into] sameBase(ufParamsBuf(result0), dst)
+//@   assigns bytes(dst)
+
+// The matcher inside matchSelectedExtensions: the option it appends carries the client's own name
+// and a copy of the parameters in fresh memory, never the slices of the header being scanned.
+//@ func matchSelectedExtensions$1
+//@   props C17
+//@   ensures [own]  ok ==> len(received) == old(len(received))+1 && fresh(ufParamsBuf(received[len(received)-1].Parameters))
+//@   ensures [keep] !ok ==> len(received) == old(len(received))
+//@   loop 1 invariant [keep] len(received) == old(len(received))
+
 //@ func bytes.EqualFold
 //@   assigns nothing
 
